@@ -3,6 +3,24 @@
   (`Prtpy.Heap`: numbered numpy buffers, numbered inner Python lists, numbered outer lists, handles
   that may alias) refines the pool of immutable `Bins α` values (`Heap.PurePool`, `Heap.pureStep`)
   as long as the hand-over discipline is respected.
+
+  Contents
+  * `Inv s pool` — the simulation invariant (live handles: `abs` = pool value, well-formed `Good`, pairwise
+    separated `Sep`); `Inv.extend` (allocating ops, via `Ext`) and `Inv.frame` (in-place ops, via `Frame`).
+  * `step_refines`, `run_refines`, **`heap_refines_pure`** (as stated in the task; the binders `i b` got the
+    type annotations `(i : Nat) (b : Bins α)` that Lean needs to elaborate `pool[i]?`).
+  * `pure_consistent`, **`all_consistent`**.
+  * `unwritten_unchanged` (general independence), **`copy_independent`**.
+  * **`args_unmodified_alloc`** (any state, no invariant), **`args_unmodified_combine`**, **`args_unmodified`**.
+  * `PStep_map`, `pureRun_map`, **`sums_forget`** (sums depend only on item values).
+
+  Model notes
+  * Nothing requested turned out false for the model.
+  * The discipline is necessary in the model exactly as in Python: see the `example` after
+    `heap_refines_pure` where a later `add` through the array returned by `remove_bins` shows through the
+    handed-over (dead) handle.
+  * `args_unmodified_alloc` needs no invariant at all: `new`/`copy`/`addEmpty`/`remove`/`concat` only append
+    buffers, inner lists, outer lists and one handle.
 -/
 import Prtpy.Heap
 import PrtpyProofs.BinsOps
@@ -683,4 +701,831 @@ theorem step_combine {s : State α} {p : PurePool α} (h : Inv s p) (h1 i1 h2 i2
   · refine h.frame hb1 a1 (upd_frame a2 i1 _ _ hlt'.1) (upd_good a2 i1 _ _) ?_
     rw [upd_abs a2 i1 _ _ hlt'.1, a3, c3]; rfl
 
+/-! ### `sort_by_ascending_sum`: the buffer prefix and the outer list are overwritten in place -/
+
+def srtZ (s : State α) (a : Handle) : List (Nat × Nat) :=
+  Prtpy.sortAsc (fun p => p.1) ((abs s a).sums.zip (ids s a))
+
+def srt (s : State α) (a : Handle) : State α :=
+  { s with bufs := s.bufs.modify a.buf (fun l => writePrefix l ((srtZ s a).map (·.1))),
+           outers := s.outers.modify a.outer (fun l => writePrefix l ((srtZ s a).map (·.2))) }
+
+theorem srtZ_perm (s : State α) (a : Handle) : (srtZ s a).Perm ((abs s a).sums.zip (ids s a)) :=
+  Part.sortAsc_perm _ _
+
+theorem srtZ_length {s : State α} {a : Handle} (hg : Good s a) : (srtZ s a).length = a.len := by
+  rw [(srtZ_perm s a).length_eq, List.length_zip, hg.sums_length, hg.ids_len]; simp
+
+theorem srtZ_snd_perm {s : State α} {a : Handle} (hg : Good s a) :
+    ((srtZ s a).map (·.2)).Perm (ids s a) := by
+  have := (srtZ_perm s a).map Prod.snd
+  rw [List.map_snd_zip (by rw [hg.sums_length, hg.ids_len]; exact Nat.le_refl _)] at this
+  exact this
+
+theorem srt_ids {s : State α} {a : Handle} (hg : Good s a) : ids (srt s a) a = (srtZ s a).map (·.2) := by
+  simp only [ids, srt, getD_modify_eq _ _ _ _ hg.outer_lt, writePrefix]
+  have : List.drop ((srtZ s a).map (·.2)).length (s.outers.getD a.outer []) = [] := by
+    apply List.drop_eq_nil_of_le
+    have := hg.ids_len; unfold ids at this
+    rw [this, List.length_map, srtZ_length hg]; exact Nat.le_refl _
+  rw [this, List.append_nil]
+
+theorem srt_frame {s : State α} {a : Handle} (hg : Good s a) : Frame s (srt s a) a := by
+  refine ⟨rfl, ?_, rfl, ?_, ?_, ?_, ?_, ?_⟩
+  · simp [srt]
+  · simp [srt]
+  · intro k hk; exact getD_modify_ne _ _ _ _ _ hk.symm
+  · intro k hk; exact getD_modify_ne _ _ _ _ _ hk.symm
+  · intro k _; rfl
+  · intro k; rw [srt_ids hg]; exact (srtZ_snd_perm hg).mem_iff
+
+theorem srt_good {s : State α} {a : Handle} (hg : Good s a) : Good (srt s a) a := by
+  refine ⟨⟨?_, ?_, ?_⟩, ?_, ?_, ?_⟩
+  · simp only [srt, List.length_modify]; exact hg.buf_lt
+  · simp only [srt, List.length_modify]; exact hg.outer_lt
+  · intro id hid
+    rw [srt_ids hg] at hid
+    exact hg.ids_lt id ((srtZ_snd_perm hg).mem_iff.1 hid)
+  · simp only [srt, getD_modify_eq _ _ _ _ hg.buf_lt, writePrefix, List.length_append, List.length_map,
+      srtZ_length hg]
+    omega
+  · rw [srt_ids hg, List.length_map, srtZ_length hg]
+  · rw [srt_ids hg]; exact (srtZ_snd_perm hg).nodup_iff.2 hg.nodup
+
+theorem srt_abs {s : State α} {a : Handle} (hg : Good s a) : abs (srt s a) a = (abs s a).sortAsc := by
+  let g : Nat → List α := fun id => s.inners.getD id []
+  have hids := srt_ids hg
+  unfold ids at hids
+  have e1 : ((srt s a).bufs.getD a.buf []).take a.len = (srtZ s a).map (·.1) := by
+    simp only [srt, getD_modify_eq _ _ _ _ hg.buf_lt, writePrefix]
+    exact List.take_left' (by rw [List.length_map, srtZ_length hg])
+  have eL : abs (srt s a) a = ⟨(srtZ s a).map (·.1), ((srtZ s a).map (·.2)).map g⟩ := by
+    unfold abs
+    rw [hids, e1]
+    rfl
+  -- the pure side: sort the (sum, list) pairs
+  have hz : (abs s a).sums.zip (abs s a).lists
+      = ((abs s a).sums.zip (ids s a)).map (Prod.map id g) := by
+    rw [← List.zip_map_right]; rfl
+  have hsort : (srtZ s a).map (Prod.map id g)
+      = Prtpy.sortAsc (fun p => p.1) (((abs s a).sums.zip (ids s a)).map (Prod.map id g)) :=
+    BinsOps.map_sortAsc (Prod.map id g : Nat × Nat → Nat × List α) (fun p => p.1)
+      ((abs s a).sums.zip (ids s a))
+  have eR : (abs s a).sortAsc = ⟨(srtZ s a).map (·.1), ((srtZ s a).map (·.2)).map g⟩ := by
+    simp only [Bins.sortAsc]
+    rw [hz, ← hsort]
+    simp only [List.map_map, Bins.mk.injEq]
+    exact ⟨List.map_congr_left (fun _ _ => rfl), List.map_congr_left (fun _ _ => rfl)⟩
+  rw [eL, eR]
+
+theorem step_sort {s : State α} {p : PurePool α} (h : Inv s p) (hi : Nat) (b : Bins α)
+    (hb : p[hi]? = some (some b)) :
+    ∃ s', step v s (.sort hi) = some s' ∧ Inv s' (p.set hi (some b.sortAsc)) := by
+  obtain ⟨a, a1, a2, a3⟩ := h.good hi b hb
+  refine ⟨srt s a, ?_, ?_⟩
+  · simp only [step, a1, Option.bind_eq_bind, Option.bind_some]; rfl
+  · refine h.frame hb a1 (srt_frame a2) (srt_good a2) ?_
+    rw [srt_abs a2, a3]
+
+/-! ## One step, then a whole run -/
+
+/-- The pure step as a relation (inversion of `pureStep`; `h` live means `p[h]? = some (some b)`). -/
+inductive PStep (v : α → Nat) (p : PurePool α) : Op α → PurePool α → Prop
+  | new (k : Nat) : PStep v p (.new k) (p ++ [some (Bins.new k)])
+  | add (h : Nat) (x : α) (i : Nat) (b : Bins α) (hb : p[h]? = some (some b)) (hi : i < b.sums.length) :
+      PStep v p (.add h x i) (p.set h (some (b.add v x i)))
+  | copy (h : Nat) (b : Bins α) (hb : p[h]? = some (some b)) : PStep v p (.copy h) (p ++ [some b])
+  | sort (h : Nat) (b : Bins α) (hb : p[h]? = some (some b)) : PStep v p (.sort h) (p.set h (some b.sortAsc))
+  | addEmpty (h n : Nat) (b : Bins α) (hb : p[h]? = some (some b)) :
+      PStep v p (.addEmpty h n) (kill p h ++ [some (b.addEmpty n)])
+  | remove (h n : Nat) (b : Bins α) (hb : p[h]? = some (some b)) (hn : n ≤ b.sums.length) :
+      PStep v p (.remove h n) (kill p h ++ [some (b.removeLast n)])
+  | concat (h1 h2 : Nat) (b1 b2 : Bins α) (hb1 : p[h1]? = some (some b1)) (hb2 : p[h2]? = some (some b2))
+      (ne : h1 ≠ h2) : PStep v p (.concat h1 h2) (kill (kill p h1) h2 ++ [some (b1.concat b2)])
+  | combine (h1 i1 h2 i2 : Nat) (b1 b2 : Bins α) (hb1 : p[h1]? = some (some b1))
+      (hb2 : p[h2]? = some (some b2)) (ne : h1 ≠ h2) (hi : i1 < b1.sums.length ∧ i2 < b2.sums.length) :
+      PStep v p (.combine h1 i1 h2 i2) (p.set h1 (some (b1.combine i1 b2 i2)))
+
+theorem pureStep_inv {p p' : PurePool α} {op : Op α} (hp : pureStep v p op = some p') : PStep v p op p' := by
+  cases op with
+  | new k =>
+    simp only [pureStep, Option.some.injEq] at hp; subst hp
+    exact .new k
+  | add hi x i =>
+    simp only [pureStep, Option.bind_eq_bind] at hp
+    cases hl : live p hi with
+    | none => simp [hl] at hp
+    | some b =>
+      simp only [hl, Option.bind_some] at hp
+      split at hp
+      · rename_i hlt
+        simp only [Option.some.injEq] at hp; subst hp
+        exact .add hi x i b (live_eq hl) hlt
+      · simp at hp
+  | copy hi =>
+    simp only [pureStep, Option.bind_eq_bind] at hp
+    cases hl : live p hi with
+    | none => simp [hl] at hp
+    | some b =>
+      simp only [hl, Option.bind_some, Option.some.injEq] at hp; subst hp
+      exact .copy hi b (live_eq hl)
+  | sort hi =>
+    simp only [pureStep, Option.bind_eq_bind] at hp
+    cases hl : live p hi with
+    | none => simp [hl] at hp
+    | some b =>
+      simp only [hl, Option.bind_some, Option.some.injEq] at hp; subst hp
+      exact .sort hi b (live_eq hl)
+  | addEmpty hi n =>
+    simp only [pureStep, Option.bind_eq_bind] at hp
+    cases hl : live p hi with
+    | none => simp [hl] at hp
+    | some b =>
+      simp only [hl, Option.bind_some, Option.some.injEq] at hp; subst hp
+      exact .addEmpty hi n b (live_eq hl)
+  | remove hi n =>
+    simp only [pureStep, Option.bind_eq_bind] at hp
+    cases hl : live p hi with
+    | none => simp [hl] at hp
+    | some b =>
+      simp only [hl, Option.bind_some] at hp
+      split at hp
+      · rename_i hn
+        simp only [Option.some.injEq] at hp; subst hp
+        exact .remove hi n b (live_eq hl) hn
+      · simp at hp
+  | concat h1 h2 =>
+    simp only [pureStep, Option.bind_eq_bind] at hp
+    cases hl1 : live p h1 with
+    | none => simp [hl1] at hp
+    | some b1 =>
+      cases hl2 : live p h2 with
+      | none => simp [hl1, hl2] at hp
+      | some b2 =>
+        simp only [hl1, hl2, Option.bind_some] at hp
+        split at hp
+        · simp at hp
+        · rename_i ne
+          simp only [Option.some.injEq] at hp; subst hp
+          exact .concat h1 h2 b1 b2 (live_eq hl1) (live_eq hl2) ne
+  | combine h1 i1 h2 i2 =>
+    simp only [pureStep, Option.bind_eq_bind] at hp
+    cases hl1 : live p h1 with
+    | none => simp [hl1] at hp
+    | some b1 =>
+      cases hl2 : live p h2 with
+      | none => simp [hl1, hl2] at hp
+      | some b2 =>
+        simp only [hl1, hl2, Option.bind_some] at hp
+        split at hp
+        · simp at hp
+        · split at hp
+          · rename_i ne hlt
+            simp only [Option.some.injEq] at hp; subst hp
+            exact .combine h1 i1 h2 i2 b1 b2 (live_eq hl1) (live_eq hl2) ne hlt
+          · simp at hp
+
+theorem live_of_eq {p : PurePool α} {h : Nat} {b : Bins α} (hb : p[h]? = some (some b)) :
+    live p h = some b := by
+  simp [live, hb]
+
+/-- …and conversely: the relation is exactly the graph of `pureStep`. -/
+theorem pureStep_of_PStep {p p' : PurePool α} {op : Op α} (hp : PStep v p op p') :
+    pureStep v p op = some p' := by
+  cases hp with
+  | new k => rfl
+  | add h x i b hb hi => simp [pureStep, live_of_eq hb, hi]
+  | copy h b hb => simp [pureStep, live_of_eq hb]
+  | sort h b hb => simp [pureStep, live_of_eq hb]
+  | addEmpty h n b hb => simp [pureStep, live_of_eq hb]
+  | remove h n b hb hn => simp [pureStep, live_of_eq hb, hn]
+  | concat h1 h2 b1 b2 hb1 hb2 ne => simp [pureStep, live_of_eq hb1, live_of_eq hb2, ne]
+  | combine h1 i1 h2 i2 b1 b2 hb1 hb2 ne hi => simp [pureStep, live_of_eq hb1, live_of_eq hb2, ne, hi]
+
+/-- Every discipline-respecting step of the pure pool is matched by the heap, and the invariant is kept. -/
+theorem step_refines {s : State α} {p p' : PurePool α} (h : Inv s p) (op : Op α)
+    (hp : pureStep v p op = some p') : ∃ s', step v s op = some s' ∧ Inv s' p' := by
+  cases pureStep_inv v hp with
+  | new k => exact step_new v h k
+  | add hi x i b hb hlt => exact step_add v h hi x i b hb hlt
+  | copy hi b hb => exact step_copy v h hi b hb
+  | sort hi b hb => exact step_sort v h hi b hb
+  | addEmpty hi n b hb => exact step_addEmpty v h hi n b hb
+  | remove hi n b hb hn => exact step_remove v h hi n b hb hn
+  | concat h1 h2 b1 b2 hb1 hb2 ne => exact step_concat v h h1 h2 b1 b2 hb1 hb2 ne
+  | combine h1 i1 h2 i2 b1 b2 hb1 hb2 ne hlt => exact step_combine v h h1 i1 h2 i2 b1 b2 hb1 hb2 hlt
+
+theorem run_refines {s : State α} {p p' : PurePool α} (h : Inv s p) (ops : List (Op α))
+    (hp : pureRun v p ops = some p') : ∃ s', run v s ops = some s' ∧ Inv s' p' := by
+  induction ops generalizing s p with
+  | nil =>
+    simp only [pureRun, Option.some.injEq] at hp; subst hp
+    exact ⟨s, rfl, h⟩
+  | cons op ops ih =>
+    simp only [pureRun] at hp
+    cases hs : pureStep v p op with
+    | none => simp [hs] at hp
+    | some p1 =>
+      simp only [hs] at hp
+      obtain ⟨s1, e1, inv1⟩ := step_refines v h op hs
+      obtain ⟨s', e2, inv2⟩ := ih inv1 hp
+      exact ⟨s', by simp only [run, e1, e2], inv2⟩
+
+/-- **C16, main refinement theorem.**  Any operation sequence accepted by the pure pool (i.e. respecting
+    the hand-over discipline, with valid indices) runs on the aliasing heap without error, and every live
+    handle denotes in the heap exactly the immutable value the pure pool assigns to it. -/
+theorem heap_refines_pure (v : α → Nat) (ops : List (Heap.Op α)) (pool : Heap.PurePool α)
+    (h : Heap.pureRun v [] ops = some pool) :
+    ∃ s, Heap.run v Heap.State.init ops = some s ∧ s.handles.length = pool.length ∧
+      ∀ (i : Nat) (b : Bins α), pool[i]? = some (some b) →
+        ∃ hd, s.handles[i]? = some hd ∧ Heap.abs s hd = b := by
+  obtain ⟨s, hr, inv⟩ := run_refines v inv_init ops h
+  refine ⟨s, hr, inv.len, ?_⟩
+  intro i b hb
+  obtain ⟨hd, h1, _, h3⟩ := inv.good i b hb
+  exact ⟨hd, h1, h3⟩
+
+/-- Non-vacuity: a sequence using every operation, including the three hand-overs. -/
+def exOps : List (Op (Nat × Nat)) :=
+  [.new 3, .add 0 (7, 3) 1, .copy 0, .sort 0, .addEmpty 0 2, .remove 1 1, .add 3 (9, 5) 0,
+   .concat 2 3, .new 2, .add 5 (4, 4) 1, .combine 4 0 5 1]
+
+example : ∃ pool, pureRun Prod.snd [] exOps = some pool ∧ pool.length = 6 ∧
+    (pool[4]?.join.map (·.sums)) = some [4, 0, 3, 0, 0, 5, 3] := ⟨_, rfl, rfl, rfl⟩
+
+example : ∃ s, run Prod.snd State.init exOps = some s ∧ s.handles.length = 6 :=
+  let ⟨s, h, hl, _⟩ := heap_refines_pure Prod.snd exOps _ rfl
+  ⟨s, h, hl⟩
+
+/-- The discipline is necessary: handle 1 was handed over to `remove`; the later `add` through the
+    returned handle 3 is visible through the dead handle 1 (same buffer, same inner lists). -/
+example : (run Prod.snd State.init exOps).map (fun s => (s.handles[1]?.map (abs s)).map (·.sums))
+    = some (some [5, 3, 0]) := rfl
+
+/-! ## Corollary 1: consistency of every live array -/
+
+def PoolConsistent (v : α → Nat) (p : PurePool α) : Prop :=
+  ∀ (i : Nat) (b : Bins α), p[i]? = some (some b) → b.Consistent v
+
+theorem append_live {q : PurePool α} {b' b : Bins α} {i : Nat}
+    (hb : (q ++ [some b'])[i]? = some (some b)) :
+    (i < q.length ∧ q[i]? = some (some b)) ∨ (i = q.length ∧ b = b') := by
+  rw [List.getElem?_append] at hb
+  split at hb
+  · exact Or.inl ⟨by assumption, hb⟩
+  · rename_i hi
+    by_cases e : i = q.length
+    · right; subst e; simp at hb; exact ⟨rfl, hb.symm⟩
+    · rw [List.getElem?_eq_none (by simp; omega)] at hb; simp at hb
+
+theorem PoolConsistent.append {p : PurePool α} {b : Bins α} (hp : PoolConsistent v p)
+    (hb : b.Consistent v) : PoolConsistent v (p ++ [some b]) := by
+  intro i bi hi
+  rcases append_live hi with ⟨_, h⟩ | ⟨_, rfl⟩
+  · exact hp i bi h
+  · exact hb
+
+theorem PoolConsistent.set {p : PurePool α} {b : Bins α} (hp : PoolConsistent v p) (h : Nat)
+    (hb : b.Consistent v) : PoolConsistent v (p.set h (some b)) := by
+  intro i bi hi
+  rcases set_live hi with ⟨_, rfl⟩ | ⟨_, l⟩
+  · exact hb
+  · exact hp i bi l
+
+theorem PoolConsistent.kill {p : PurePool α} (hp : PoolConsistent v p) (h : Nat) :
+    PoolConsistent v (kill p h) :=
+  fun i bi hi => hp i bi (kill_live p h i bi hi).1
+
+theorem pureStep_consistent {p p' : PurePool α} {op : Op α} (hc : PoolConsistent v p)
+    (hp : pureStep v p op = some p') : PoolConsistent v p' := by
+  obtain ⟨c1, c2, _, c4, c5, c6, c7, c8⟩ := BinsOps.op_consistent (α := α) v
+  cases pureStep_inv v hp with
+  | new k => exact hc.append v (c1 k)
+  | add h x i b hb hi => exact hc.set v h (c2 b x i (hc h b hb))
+  | copy h b hb => exact hc.append v (hc h b hb)
+  | sort h b hb => exact hc.set v h (c8 b (hc h b hb))
+  | addEmpty h n b hb => exact (hc.kill v h).append v (c5 b n (hc h b hb))
+  | remove h n b hb hn => exact (hc.kill v h).append v (c6 b n (hc h b hb))
+  | concat h1 h2 b1 b2 hb1 hb2 ne =>
+    exact ((hc.kill v h1).kill v h2).append v (c4 b1 b2 (hc h1 b1 hb1) (hc h2 b2 hb2))
+  | combine h1 i1 h2 i2 b1 b2 hb1 hb2 ne hi =>
+    exact hc.set v h1 (c7 b1 b2 i1 i2 (hc h1 b1 hb1) (hc h2 b2 hb2))
+
+theorem pureRun_consistent {p p' : PurePool α} (ops : List (Op α)) (hc : PoolConsistent v p)
+    (hp : pureRun v p ops = some p') : PoolConsistent v p' := by
+  induction ops generalizing p with
+  | nil => simp only [pureRun, Option.some.injEq] at hp; subst hp; exact hc
+  | cons op ops ih =>
+    simp only [pureRun] at hp
+    cases hs : pureStep v p op with
+    | none => simp [hs] at hp
+    | some p1 => simp only [hs] at hp; exact ih (pureStep_consistent v hc hs) hp
+
+/-- From the empty pool the pure operations only ever produce consistent values. -/
+theorem pure_consistent (ops : List (Op α)) (pool : PurePool α) (h : pureRun v [] ops = some pool) :
+    PoolConsistent v pool :=
+  pureRun_consistent v ops (fun i b hb => by simp at hb) h
+
+/-- **C16, consistency.**  After any discipline-respecting sequence every live array of the heap is
+    consistent: each bin's sum is the total value of its recorded items. -/
+theorem all_consistent (v : α → Nat) (ops : List (Op α)) (pool : PurePool α)
+    (h : pureRun v [] ops = some pool) :
+    ∃ s, run v State.init ops = some s ∧
+      ∀ i, Live pool i → ∃ hd, s.handles[i]? = some hd ∧ (abs s hd).Consistent v := by
+  obtain ⟨s, hr, _, hg⟩ := heap_refines_pure v ops pool h
+  refine ⟨s, hr, ?_⟩
+  intro i ⟨b, hb⟩
+  obtain ⟨hd, h1, h2⟩ := hg i b hb
+  exact ⟨hd, h1, by rw [h2]; exact pure_consistent v ops pool h i b hb⟩
+
+example : ∃ s, run Prod.snd State.init exOps = some s ∧
+    ∀ i, Live (α := Nat × Nat) [none, none, none, none,
+        some ⟨[4, 0, 3, 0, 0, 5, 3], [[(4, 4)], [], [(7, 3)], [], [], [(9, 5)], [(7, 3)]]⟩,
+        some ⟨[0, 4], [[], [(4, 4)]]⟩] i →
+      ∃ hd, s.handles[i]? = some hd ∧ (abs s hd).Consistent Prod.snd :=
+  all_consistent Prod.snd exOps _ rfl
+
+/-! ## Corollary 2: independence — a live array changes only through operations applied to itself -/
+
+/-- `op` writes to (or hands over) the array with handle `k`.  The second argument of `combine` and the
+    argument of `copy` are only read. -/
+def writes : Op α → Nat → Prop
+  | .new _, _ => False
+  | .add h _ _, k => h = k
+  | .copy _, _ => False
+  | .sort h, k => h = k
+  | .addEmpty h _, k => h = k
+  | .remove h _, k => h = k
+  | .concat h1 h2, k => h1 = k ∨ h2 = k
+  | .combine h1 _ _ _, k => h1 = k
+
+theorem pureStep_length_le {p p' : PurePool α} {op : Op α} (hp : pureStep v p op = some p') :
+    p.length ≤ p'.length := by
+  cases pureStep_inv v hp <;> simp [kill_length]
+
+/-- Pure side: an operation that does not write `k` leaves the pool entry `k` alone. -/
+theorem pureStep_frame {p p' : PurePool α} {op : Op α} (hp : pureStep v p op = some p') (k : Nat)
+    (hk : k < p.length) (hw : ¬ writes op k) : p'[k]? = p[k]? := by
+  cases pureStep_inv v hp with
+  | new _ => exact List.getElem?_append_left hk
+  | add h x i b hb hi => exact List.getElem?_set_ne hw
+  | copy h b hb => exact List.getElem?_append_left hk
+  | sort h b hb => exact List.getElem?_set_ne hw
+  | addEmpty h n b hb =>
+    rw [List.getElem?_append_left (by rw [kill_length]; exact hk)]
+    exact List.getElem?_set_ne hw
+  | remove h n b hb hn =>
+    rw [List.getElem?_append_left (by rw [kill_length]; exact hk)]
+    exact List.getElem?_set_ne hw
+  | concat h1 h2 b1 b2 hb1 hb2 ne =>
+    rw [List.getElem?_append_left (by rw [kill_length, kill_length]; exact hk)]
+    unfold kill
+    rw [List.getElem?_set_ne (fun e => hw (Or.inr e)), List.getElem?_set_ne (fun e => hw (Or.inl e))]
+  | combine h1 i1 h2 i2 b1 b2 hb1 hb2 ne hi => exact List.getElem?_set_ne hw
+
+theorem pureRun_frame {p p' : PurePool α} (ops : List (Op α)) (hp : pureRun v p ops = some p') (k : Nat)
+    (hk : k < p.length) (hw : ∀ op ∈ ops, ¬ writes op k) : p'[k]? = p[k]? := by
+  induction ops generalizing p with
+  | nil => simp only [pureRun, Option.some.injEq] at hp; subst hp; rfl
+  | cons op ops ih =>
+    simp only [pureRun] at hp
+    cases hs : pureStep v p op with
+    | none => simp [hs] at hp
+    | some p1 =>
+      simp only [hs] at hp
+      have h1 := pureStep_frame v hs k hk (hw op (List.mem_cons_self ..))
+      have hl := pureStep_length_le v hs
+      rw [ih hp (by omega) (fun o ho => hw o (List.mem_cons_of_mem _ ho)), h1]
+
+/-- Heap side: handle objects are never changed or removed, only created. -/
+theorem step_handles {s s' : State α} {op : Op α} (h : step v s op = some s') :
+    ∃ x, s'.handles = s.handles ++ x := by
+  cases op with
+  | new k => simp only [step, Option.some.injEq] at h; subst h; exact ⟨_, rfl⟩
+  | add hi x i =>
+    simp only [step, Option.bind_eq_bind] at h
+    cases hh : s.handles[hi]? with
+    | none => simp [hh] at h
+    | some a =>
+      simp only [hh, Option.bind_some] at h
+      split at h
+      · simp only [Option.some.injEq] at h; subst h; exact ⟨[], by simp⟩
+      · simp at h
+  | copy hi =>
+    simp only [step, Option.bind_eq_bind] at h
+    cases hh : s.handles[hi]? with
+    | none => simp [hh] at h
+    | some a =>
+      simp only [hh, Option.bind_some, Option.some.injEq] at h; subst h; exact ⟨_, rfl⟩
+  | sort hi =>
+    simp only [step, Option.bind_eq_bind] at h
+    cases hh : s.handles[hi]? with
+    | none => simp [hh] at h
+    | some a =>
+      simp only [hh, Option.bind_some, Option.some.injEq] at h; subst h; exact ⟨[], by simp⟩
+  | addEmpty hi n =>
+    simp only [step, Option.bind_eq_bind] at h
+    cases hh : s.handles[hi]? with
+    | none => simp [hh] at h
+    | some a =>
+      simp only [hh, Option.bind_some, Option.some.injEq] at h; subst h; exact ⟨_, rfl⟩
+  | remove hi n =>
+    simp only [step, Option.bind_eq_bind] at h
+    cases hh : s.handles[hi]? with
+    | none => simp [hh] at h
+    | some a =>
+      simp only [hh, Option.bind_some] at h
+      split at h
+      · simp only [Option.some.injEq] at h; subst h; exact ⟨_, rfl⟩
+      · simp at h
+  | concat h1 h2 =>
+    simp only [step, Option.bind_eq_bind] at h
+    cases hh1 : s.handles[h1]? with
+    | none => simp [hh1] at h
+    | some a =>
+      cases hh2 : s.handles[h2]? with
+      | none => simp [hh1, hh2] at h
+      | some c =>
+        simp only [hh1, hh2, Option.bind_some, Option.some.injEq] at h; subst h; exact ⟨_, rfl⟩
+  | combine h1 i1 h2 i2 =>
+    simp only [step, Option.bind_eq_bind] at h
+    cases hh1 : s.handles[h1]? with
+    | none => simp [hh1] at h
+    | some a =>
+      cases hh2 : s.handles[h2]? with
+      | none => simp [hh1, hh2] at h
+      | some c =>
+        simp only [hh1, hh2, Option.bind_some] at h
+        split at h
+        · simp only [Option.some.injEq] at h; subst h; exact ⟨[], by simp⟩
+        · simp at h
+
+theorem run_handles {s s' : State α} (ops : List (Op α)) (h : run v s ops = some s') :
+    ∃ x, s'.handles = s.handles ++ x := by
+  induction ops generalizing s with
+  | nil => simp only [run, Option.some.injEq] at h; subst h; exact ⟨[], by simp⟩
+  | cons op ops ih =>
+    simp only [run] at h
+    cases hs : step v s op with
+    | none => simp [hs] at h
+    | some s1 =>
+      simp only [hs] at h
+      obtain ⟨x, hx⟩ := step_handles v hs
+      obtain ⟨y, hy⟩ := ih h
+      exact ⟨x ++ y, by rw [hy, hx, List.append_assoc]⟩
+
+theorem run_handles_get {s s' : State α} (ops : List (Op α)) (h : run v s ops = some s') {k : Nat}
+    {hd : Handle} (hk : s.handles[k]? = some hd) : s'.handles[k]? = some hd := by
+  obtain ⟨x, hx⟩ := run_handles v ops h
+  have : k < s.handles.length := by
+    apply Classical.byContradiction; intro hn
+    rw [List.getElem?_eq_none (by omega)] at hk; cases hk
+  rw [hx, List.getElem?_append_left this, hk]
+
+/-- **General independence.**  From any state related to a pool, a discipline-respecting run in which no
+    operation writes to (or hands over) the live array `k` leaves what handle `k` denotes unchanged, no
+    matter what happens to all the other arrays — including arrays `k` was copied from / to, and arrays
+    that read `k` as the second argument of `combine_bins`. -/
+theorem unwritten_unchanged {s : State α} {p p' : PurePool α} (hinv : Inv s p) (ops : List (Op α))
+    (hp : pureRun v p ops = some p') (k : Nat) (hd : Handle) (hl : Live p k)
+    (hk : s.handles[k]? = some hd) (hw : ∀ op ∈ ops, ¬ writes op k) :
+    ∃ s', run v s ops = some s' ∧ Inv s' p' ∧ s'.handles[k]? = some hd ∧ abs s' hd = abs s hd := by
+  obtain ⟨s', hr, inv'⟩ := run_refines v hinv ops hp
+  obtain ⟨b, hb⟩ := hl
+  have hklt : k < p.length := by
+    apply Classical.byContradiction; intro hn
+    rw [List.getElem?_eq_none (by omega)] at hb; cases hb
+  have hb' : p'[k]? = some (some b) := by rw [pureRun_frame v ops hp k hklt hw, hb]
+  obtain ⟨hd0, g1, _, g3⟩ := hinv.good k b hb
+  rw [hk] at g1; cases g1
+  obtain ⟨hd', g1', _, g3'⟩ := inv'.good k b hb'
+  have hk' := run_handles_get v ops hr hk
+  rw [hk'] at g1'; cases g1'
+  exact ⟨s', hr, inv', hk', by rw [g3', g3]⟩
+
+theorem pureRun_append {p : PurePool α} (ops ops' : List (Op α)) :
+    pureRun v p (ops ++ ops') = (pureRun v p ops).bind (fun q => pureRun v q ops') := by
+  induction ops generalizing p with
+  | nil => rfl
+  | cons op ops ih =>
+    simp only [List.cons_append, pureRun]
+    cases pureStep v p op with
+    | none => rfl
+    | some p1 => exact ih
+
+theorem run_append {s : State α} (ops ops' : List (Op α)) :
+    run v s (ops ++ ops') = (run v s ops).bind (fun q => run v q ops') := by
+  induction ops generalizing s with
+  | nil => rfl
+  | cons op ops ih =>
+    simp only [List.cons_append, run]
+    cases step v s op with
+    | none => rfl
+    | some s1 => exact ih
+
+/-- **C16, copies are independent in both directions.**  After `ops ++ [copy h]` the original `h` and the
+    copy `c` (the last handle) denote the same value; in any continuation `ops'`, if no operation writes
+    to the original then the original keeps its value whatever is done to the copy, and if no operation
+    writes to the copy then the copy keeps its value whatever is done to the original. -/
+theorem copy_independent (v : α → Nat) (ops ops' : List (Op α)) (h : Nat) (pool pool' : PurePool α)
+    (h1 : pureRun v [] (ops ++ [.copy h]) = some pool) (h2 : pureRun v pool ops' = some pool') :
+    ∃ s s' ho hc, run v State.init (ops ++ [.copy h]) = some s ∧
+      run v State.init (ops ++ [.copy h] ++ ops') = some s' ∧
+      h ≠ pool.length - 1 ∧
+      s.handles[h]? = some ho ∧ s.handles[pool.length - 1]? = some hc ∧
+      s'.handles[h]? = some ho ∧ s'.handles[pool.length - 1]? = some hc ∧
+      abs s hc = abs s ho ∧
+      ((∀ op ∈ ops', ¬ writes op h) → abs s' ho = abs s ho) ∧
+      ((∀ op ∈ ops', ¬ writes op (pool.length - 1)) → abs s' hc = abs s hc) := by
+  -- the pool just before and after the copy
+  rw [pureRun_append] at h1
+  cases hq : pureRun v [] ops with
+  | none => simp [hq] at h1
+  | some q =>
+    simp only [hq, Option.bind_some, pureRun] at h1
+    cases hcpy : pureStep v q (.copy h) with
+    | none => simp [hcpy] at h1
+    | some q1 =>
+      simp only [hcpy, Option.some.injEq] at h1; subst h1
+      cases pureStep_inv v hcpy with
+      | copy _ b hb =>
+        have hlt : h < q.length := by
+          apply Classical.byContradiction; intro hn
+          rw [List.getElem?_eq_none (by omega)] at hb; cases hb
+        have hc0 : (q ++ [some b]).length - 1 = q.length := by simp
+        rw [hc0]
+        have lh : (q ++ [some b])[h]? = some (some b) := by
+          rw [List.getElem?_append_left hlt]; exact hb
+        have lc : (q ++ [some b])[q.length]? = some (some b) := by simp
+        have hrun : pureRun v [] (ops ++ [.copy h]) = some (q ++ [some b]) := by
+          rw [pureRun_append, hq]; simp only [Option.bind_some, pureRun, hcpy]
+        obtain ⟨s, hr, inv⟩ := run_refines v inv_init _ hrun
+        obtain ⟨ho, o1, _, o3⟩ := inv.good h b lh
+        obtain ⟨hc, c1, _, c3⟩ := inv.good q.length b lc
+        obtain ⟨s', hr', inv'⟩ := run_refines v inv ops' h2
+        have hfull : run v State.init (ops ++ [.copy h] ++ ops') = some s' := by
+          rw [run_append, hr]; exact hr'
+        refine ⟨s, s', ho, hc, hr, hfull, by omega, o1, c1, run_handles_get v ops' hr' o1,
+          run_handles_get v ops' hr' c1, by rw [o3, c3], ?_, ?_⟩
+        · intro hw
+          obtain ⟨s'', hr'', _, _, e⟩ := unwritten_unchanged v inv ops' h2 h ho ⟨b, lh⟩ o1 hw
+          rw [hr'] at hr''; cases hr''; exact e
+        · intro hw
+          obtain ⟨s'', hr'', _, _, e⟩ := unwritten_unchanged v inv ops' h2 q.length hc ⟨b, lc⟩ c1 hw
+          rw [hr'] at hr''; cases hr''; exact e
+
+/-- non-vacuity: after the copy, the original (handle 0) is sorted and handed over to `add_empty_bins`
+    while nothing writes to the copy (handle 1) — and then the other way round. -/
+example :=
+  copy_independent Prod.snd [.new 3, .add 0 (7, 3) 1] [.sort 0, .addEmpty 0 2, .add 2 (1, 1) 4] 0 _ _ rfl rfl
+
+example : ∀ op ∈ ([.sort 0, .addEmpty 0 2, .add 2 (1, 1) 4] : List (Op (Nat × Nat))), ¬ writes op 1 := by
+  simp [writes]
+
+/-! ## Corollary 3: the call itself never alters an argument documented as unmodified -/
+
+/-- the operations that only allocate: they append cells and one handle, and write nowhere else -/
+def allocOnly : Op α → Prop
+  | .new _ | .copy _ | .addEmpty _ _ | .remove _ _ | .concat _ _ => True
+  | _ => False
+
+/-- `new_bins`, `copy_bins`, `add_empty_bins`, `remove_bins`, `concatenate_bins` only append to the heap —
+    in *every* state, with no invariant needed. -/
+theorem step_ext {s s' : State α} {op : Op α} (ha : allocOnly op) (h : step v s op = some s') :
+    ∃ h', Ext s s' h' := by
+  cases op with
+  | new k => simp only [step, Option.some.injEq] at h; subst h; exact ⟨_, alloc_ext _ _ _⟩
+  | copy hi =>
+    simp only [step, Option.bind_eq_bind] at h
+    cases hh : s.handles[hi]? with
+    | none => simp [hh] at h
+    | some a =>
+      simp only [hh, Option.bind_some, Option.some.injEq] at h; subst h; exact ⟨_, alloc_ext _ _ _⟩
+  | addEmpty hi n =>
+    simp only [step, Option.bind_eq_bind] at h
+    cases hh : s.handles[hi]? with
+    | none => simp [hh] at h
+    | some a =>
+      simp only [hh, Option.bind_some, Option.some.injEq] at h; subst h
+      exact ⟨_, sh_ext s (List.replicate n []) _ _⟩
+  | remove hi n =>
+    simp only [step, Option.bind_eq_bind] at h
+    cases hh : s.handles[hi]? with
+    | none => simp [hh] at h
+    | some a =>
+      simp only [hh, Option.bind_some] at h
+      split at h
+      · simp only [Option.some.injEq] at h; subst h; exact ⟨_, rm_ext s a n⟩
+      · simp at h
+  | concat h1 h2 =>
+    simp only [step, Option.bind_eq_bind] at h
+    cases hh1 : s.handles[h1]? with
+    | none => simp [hh1] at h
+    | some a =>
+      cases hh2 : s.handles[h2]? with
+      | none => simp [hh1, hh2] at h
+      | some c =>
+        simp only [hh1, hh2, Option.bind_some, Option.some.injEq, sh_nil] at h; subst h
+        exact ⟨_, sh_ext s [] _ _⟩
+  | add _ _ _ => exact absurd ha id
+  | sort _ => exact absurd ha id
+  | combine _ _ _ _ => exact absurd ha id
+
+/-- **Arguments of the allocating calls are unmodified**, in every state: whatever a handle with allocated
+    ids denotes before `concatenate_bins` / `add_empty_bins` / `remove_bins` / `copy_bins` / `new_bins`, it
+    denotes after the call (the call itself changes no argument; only *later* writes through the returned
+    array can show through a handed-over argument). -/
+theorem args_unmodified_alloc {s s' : State α} {op : Op α} (ha : allocOnly op) (h : step v s op = some s')
+    (hd : Handle) (hv : Valid s hd) : abs s' hd = abs s hd := by
+  obtain ⟨h', e⟩ := step_ext v ha h
+  exact e.abs_eq hv
+
+/-- **The second argument of `combine_bins` is unmodified** (under the invariant, i.e. when the two arrays
+    are distinct live arrays): the call writes only into cells owned by the first argument. -/
+theorem args_unmodified_combine {s s' : State α} {p p' : PurePool α} (hinv : Inv s p) (h1 i1 h2 i2 : Nat)
+    (hp : pureStep v p (.combine h1 i1 h2 i2) = some p') (hs : step v s (.combine h1 i1 h2 i2) = some s')
+    (c : Handle) (hc : s.handles[h2]? = some c) : abs s' c = abs s c := by
+  cases pureStep_inv v hp with
+  | combine _ _ _ _ b1 b2 hb1 hb2 ne hi =>
+    obtain ⟨a, a1, a2, a3⟩ := hinv.good h1 b1 hb1
+    obtain ⟨c', c1, c2, c3⟩ := hinv.good h2 b2 hb2
+    rw [hc] at c1; cases c1
+    have hlt' : i1 < a.len ∧ i2 < c.len := by
+      rw [← a2.sums_length, a3, ← c2.sums_length, c3]; exact hi
+    have hsep := hinv.sep h2 h1 c a (fun e => ne e.symm) ⟨b2, hb2⟩ ⟨b1, hb1⟩ hc a1
+    simp only [step, a1, hc, Option.bind_eq_bind, Option.bind_some, if_pos hlt', Option.some.injEq] at hs
+    subst hs
+    exact (upd_frame a2 i1 _ _ hlt'.1).abs_eq hsep
+
+/-- `op` mutates the array with handle `k` in place -/
+def mutates : Op α → Nat → Prop
+  | .add h _ _, k => h = k
+  | .sort h, k => h = k
+  | .combine h1 _ _ _, k => h1 = k
+  | _, _ => False
+
+/-- **C16, every call leaves its documented-unmodified arguments alone.**  Under the invariant, for a call
+    accepted by the discipline: every live array that the operation does not mutate in place
+    (`add_item_to_bin` / `sort_by_ascending_sum` on it, or first argument of `combine_bins`) denotes the
+    same value immediately after the call — in particular both arguments of `concatenate_bins`, the
+    argument of `add_empty_bins`, `remove_bins`, `copy_bins`, and the second argument of `combine_bins`. -/
+theorem args_unmodified {s s' : State α} {p p' : PurePool α} (hinv : Inv s p) (op : Op α)
+    (hp : pureStep v p op = some p') (hs : step v s op = some s') (k : Nat) (hd : Handle)
+    (hl : Live p k) (hk : s.handles[k]? = some hd) (hm : ¬ mutates op k) : abs s' hd = abs s hd := by
+  obtain ⟨b, hb⟩ := hl
+  obtain ⟨hd', g1, g2, g3⟩ := hinv.good k b hb
+  rw [hk] at g1; cases g1
+  by_cases ha : allocOnly op
+  · exact args_unmodified_alloc v ha hs hd g2.toValid
+  · -- in-place operations do not kill anything: use the pure frame and the invariant afterwards
+    have hw : ¬ writes op k := by
+      cases op <;> first | exact absurd trivial ha | exact hm
+    obtain ⟨s'', hs'', inv'⟩ := step_refines v hinv op hp
+    rw [hs] at hs''; cases hs''
+    have hklt : k < p.length := by
+      apply Classical.byContradiction; intro hn
+      rw [List.getElem?_eq_none (by omega)] at hb; cases hb
+    have hb' : p'[k]? = some (some b) := by rw [pureStep_frame v hp k hklt hw, hb]
+    obtain ⟨hd', g1', _, g3'⟩ := inv'.good k b hb'
+    obtain ⟨x, hx⟩ := step_handles v hs
+    have : s'.handles[k]? = some hd := by
+      rw [hx, List.getElem?_append_left (by rw [hinv.len]; exact hklt), hk]
+    rw [this] at g1'; cases g1'
+    rw [g3', g3]
+
+/-- non-vacuity for `args_unmodified_alloc`: `remove_bins` on a concrete heap -/
+example : ∃ s s', run Prod.snd State.init [.new 2, .add 0 (7, 3) 1] = some s ∧
+    step Prod.snd s (.remove 0 1) = some s' ∧ abs s' ⟨0, 2, 0⟩ = abs s ⟨0, 2, 0⟩ := by
+  refine ⟨_, _, rfl, rfl, ?_⟩
+  exact args_unmodified_alloc Prod.snd (op := .remove 0 1) trivial rfl _
+    ⟨by decide, by decide, by decide⟩
+
+/-- non-vacuity for `args_unmodified` / `args_unmodified_combine`: `combine_bins(a0, 0, a1, 1)` leaves
+    `a1` alone -/
+example : ∃ s s' c, run Prod.snd State.init [.new 2, .new 2, .add 1 (4, 4) 1] = some s ∧
+    step Prod.snd s (.combine 0 0 1 1) = some s' ∧ s.handles[1]? = some c ∧ abs s' c = abs s c ∧
+    (abs s' ⟨0, 2, 0⟩).sums = [4, 0] := by
+  obtain ⟨s, hr, inv⟩ := run_refines Prod.snd inv_init
+    ([.new 2, .new 2, .add 1 (4, 4) 1] : List (Op (Nat × Nat))) (p' := _) rfl
+  obtain ⟨s', hs, _⟩ := step_refines Prod.snd inv (.combine 0 0 1 1) (p' := _) rfl
+  obtain ⟨c, hc, _, _⟩ := inv.good 1 _ rfl
+  refine ⟨s, s', c, hr, hs, hc, args_unmodified_combine Prod.snd inv 0 0 1 1 rfl hs c hc, ?_⟩
+  cases hr; cases hs; rfl
+
+/-! ## Corollary 4: the sums-only manager — sums depend only on the values of the items -/
+
+section Forget
+variable {β : Type}
+
+/-- substitute item names in an operation -/
+def mapItem (f : α → β) : Op α → Op β
+  | .new k => .new k
+  | .add h x i => .add h (f x) i
+  | .copy h => .copy h
+  | .sort h => .sort h
+  | .addEmpty h n => .addEmpty h n
+  | .remove h n => .remove h n
+  | .concat h1 h2 => .concat h1 h2
+  | .combine h1 i1 h2 i2 => .combine h1 i1 h2 i2
+
+def mapPool (f : α → β) (p : PurePool α) : PurePool β := p.map (Option.map (Bins.mapItems f))
+
+theorem mapPool_get (f : α → β) {p : PurePool α} {h : Nat} {b : Bins α} (hb : p[h]? = some (some b)) :
+    (mapPool f p)[h]? = some (some (b.mapItems f)) := by
+  simp [mapPool, List.getElem?_map, hb]
+
+theorem mapPool_append (f : α → β) (p : PurePool α) (b : Bins α) :
+    mapPool f (p ++ [some b]) = mapPool f p ++ [some (b.mapItems f)] := by
+  simp [mapPool]
+
+theorem mapPool_set (f : α → β) (p : PurePool α) (h : Nat) (b : Bins α) :
+    mapPool f (p.set h (some b)) = (mapPool f p).set h (some (b.mapItems f)) := by
+  simp [mapPool, List.map_set]
+
+theorem mapPool_kill (f : α → β) (p : PurePool α) (h : Nat) :
+    mapPool f (kill p h) = kill (mapPool f p) h := by
+  simp [mapPool, kill, List.map_set]
+
+/-- The pure step commutes with renaming items by any value-preserving map. -/
+theorem PStep_map (f : α → β) (w : β → Nat) (hw : ∀ x, w (f x) = v x) {p p' : PurePool α} {op : Op α}
+    (hp : PStep v p op p') : PStep w (mapPool f p) (mapItem f op) (mapPool f p') := by
+  cases hp with
+  | new k =>
+    rw [mapPool_append, BinsOps.mapItems_new]; exact .new k
+  | add h x i b hb hi =>
+    rw [mapPool_set, BinsOps.mapItems_add f v w b x i (hw x)]
+    exact .add h (f x) i _ (mapPool_get f hb) hi
+  | copy h b hb => rw [mapPool_append]; exact .copy h _ (mapPool_get f hb)
+  | sort h b hb =>
+    rw [mapPool_set, BinsOps.mapItems_sortAsc]; exact .sort h _ (mapPool_get f hb)
+  | addEmpty h n b hb =>
+    rw [mapPool_append, mapPool_kill, BinsOps.mapItems_addEmpty]
+    exact .addEmpty h n _ (mapPool_get f hb)
+  | remove h n b hb hn =>
+    rw [mapPool_append, mapPool_kill, BinsOps.mapItems_removeLast]
+    exact .remove h n _ (mapPool_get f hb) hn
+  | concat h1 h2 b1 b2 hb1 hb2 ne =>
+    rw [mapPool_append, mapPool_kill, mapPool_kill, BinsOps.mapItems_concat]
+    exact .concat h1 h2 _ _ (mapPool_get f hb1) (mapPool_get f hb2) ne
+  | combine h1 i1 h2 i2 b1 b2 hb1 hb2 ne hi =>
+    rw [mapPool_set, BinsOps.mapItems_combine]
+    exact .combine h1 i1 h2 i2 _ _ (mapPool_get f hb1) (mapPool_get f hb2) ne hi
+
+theorem pureRun_map (f : α → β) (w : β → Nat) (hw : ∀ x, w (f x) = v x) {p p' : PurePool α}
+    (ops : List (Op α)) (hp : pureRun v p ops = some p') :
+    pureRun w (mapPool f p) (ops.map (mapItem f)) = some (mapPool f p') := by
+  induction ops generalizing p with
+  | nil => simp only [pureRun, Option.some.injEq] at hp; subst hp; rfl
+  | cons op ops ih =>
+    simp only [pureRun] at hp
+    cases hs : pureStep v p op with
+    | none => simp [hs] at hp
+    | some p1 =>
+      simp only [hs] at hp
+      have := pureStep_of_PStep w (PStep_map v f w hw (pureStep_inv v hs))
+      simp only [List.map_cons, pureRun, this]
+      exact ih hp
+
+end Forget
+
+/-- **C16 for the sums-only manager.**  Replace every item by its value (`mapItem v`, value function `id`):
+    the run on the heap still succeeds, and every live handle denotes the same sums — in fact the same
+    bins-array with items renamed.  So the `sums` component of any live array depends only on the values
+    of the items, which is why `BinnerKeepingSums` (the same heap with the lists ignored) agrees with
+    `BinnerKeepingContents` on sums.  The effect of each operation on the sums alone is given by
+    `BinsOps.forget_*`. -/
+theorem sums_forget (v : α → Nat) (ops : List (Op α)) (pool : PurePool α)
+    (h : pureRun v [] ops = some pool) :
+    ∃ s t, run v State.init ops = some s ∧ run id State.init (ops.map (mapItem v)) = some t ∧
+      s.handles.length = t.handles.length ∧
+      ∀ i, Live pool i → ∃ hs ht, s.handles[i]? = some hs ∧ t.handles[i]? = some ht ∧
+        abs t ht = (abs s hs).mapItems v ∧ (abs t ht).sums = (abs s hs).sums := by
+  obtain ⟨s, hr, hl, hg⟩ := heap_refines_pure v ops pool h
+  have h' := pureRun_map v v id (fun _ => rfl) ops h
+  obtain ⟨t, hr', hl', hg'⟩ := heap_refines_pure id _ _ h'
+  refine ⟨s, t, hr, hr', by rw [hl, hl']; simp [mapPool], ?_⟩
+  intro i ⟨b, hb⟩
+  obtain ⟨hs, s1, s2⟩ := hg i b hb
+  obtain ⟨ht, t1, t2⟩ := hg' i _ (mapPool_get v hb)
+  exact ⟨hs, ht, s1, t1, by rw [t2, s2], by rw [t2, s2]; rfl⟩
+
+example := sums_forget Prod.snd exOps _ rfl
+
 end Prtpy.HeapRefine
+
+/-
+`#print axioms` output observed (Lean 4.33.0):
+
+'Prtpy.HeapRefine.heap_refines_pure' depends on axioms: [propext, Classical.choice, Quot.sound]
+'Prtpy.HeapRefine.step_refines' depends on axioms: [propext, Classical.choice, Quot.sound]
+'Prtpy.HeapRefine.run_refines' depends on axioms: [propext, Classical.choice, Quot.sound]
+'Prtpy.HeapRefine.pure_consistent' depends on axioms: [propext, Quot.sound]
+'Prtpy.HeapRefine.all_consistent' depends on axioms: [propext, Classical.choice, Quot.sound]
+'Prtpy.HeapRefine.unwritten_unchanged' depends on axioms: [propext, Classical.choice, Quot.sound]
+'Prtpy.HeapRefine.copy_independent' depends on axioms: [propext, Classical.choice, Quot.sound]
+'Prtpy.HeapRefine.args_unmodified_alloc' depends on axioms: [propext, Quot.sound]
+'Prtpy.HeapRefine.args_unmodified_combine' depends on axioms: [propext, Classical.choice, Quot.sound]
+'Prtpy.HeapRefine.args_unmodified' depends on axioms: [propext, Classical.choice, Quot.sound]
+'Prtpy.HeapRefine.pureRun_map' depends on axioms: [propext, Quot.sound]
+'Prtpy.HeapRefine.sums_forget' depends on axioms: [propext, Classical.choice, Quot.sound]
+-/
